@@ -18,7 +18,7 @@ PATHS = {           # name -> (qx 8-bit mode, qx punct mode, case) : steers the 
     "fold": ("keep", "keep", "lower"),   # -> Base32
     "rand": ("keep", "keep", "random"),  # 0x20 randomisation -> Base32
 }
-FAULT_CLASSES = ["loss", "burst", "dup", "delay", "mixed", "idrewrite", "impatient", "heavy", "casesome"]
+FAULT_CLASSES = ["loss", "burst", "dup", "delay", "mixed", "idrewrite", "impatient", "heavy", "casesome", "blackout"]
 
 
 def gen_config(rng, idx, faults=True, nclients_max=1, allow_raw=True):
@@ -94,6 +94,9 @@ def fault_profile(cfg, rng, t0, duration):
         p["id_rewrite"] = True
         p["impatient"] = rng.choice([300000, 800000])
         p["a_delay"] = 200000
+    elif fc == "blackout":
+        # nothing gets through in either direction for the whole fault phase (a resolver that is down, a route that flaps)
+        p["bursts"].append((t0, t0 + duration, "both"))
     elif fc == "casesome":
         # one resolver of several changes the letter case of some query names (never during the handshake: the fault phase starts
         # later), a few datagrams are lost and repeated as well
